@@ -33,7 +33,9 @@ TEXTS["C04"] = {
     "text": "The transition table is regenerated from transaction_manager.go on every run and the theorems are re-proved against it: no transition leaves SUCCESS/FAILURE/ROLLBACK "
             "(C04_table_no_exit_from_final, lifted to all events: C04_final_absorbing_step), every FSM step is a protocol edge (C04_step_is_protocol_edge), Report moves a one-to-one "
             "record only along the FSM and refuses receipts in final states (C04_report_moves_along_fsm, C04_report_refused_when_final), GetStatus returns the stored status. "
-            "History level (Proofs/ExecRec.lean: only Begin writes a fresh record, only Report steps an existing one, nothing else touches tx-<id>): over ANY sequence of handled IBTPs the status of a record of an index-checked pair stays present and "
+            "Between two BitXHubs the destination hub's notice (Extra field naming BEGIN_FAILURE / BEGIN_ROLLBACK) is accepted exactly at BEGIN, ends in FAILURE resp. ROLLBACK and keeps the deadline "
+            "(notice_step by decide over the regenerated txStatus2EventM, C04_notice_only_from_begin, C04_notice_accepted_at_begin; repaired by fix 37545315); histories with a registered second hub (world option hub=1) are compared with the model. "
+            "History level (Proofs/ExecRec.lean: only Begin writes a fresh record, only Report or the notice steps an existing one, nothing else touches tx-<id>): over ANY sequence of handled IBTPs the status of a record of an index-checked pair stays present and "
             "moves only along steps of the state machine (C04_history_status_path), hence SUCCESS / FAILURE / ROLLBACK never change again (C04_history_final_stays); the counter hypothesis of both holds for every record the contract creates "
             "(C04_created_record_is_bounded). Block level (through applyTx with its fee step, transfers, contract calls, the timeout bookkeeping and the timeout step): a final record stays as it is over one block and over every history of blocks "
             "(C04_tx_final_stays, C04_block_final_stays, C04_block_history_final_stays) under the hypothesis that the record is not on the timeout list of a height whose timeout step runs (and nobody calls the unguarded "
@@ -45,9 +47,10 @@ TEXTS["C04"] = {
 TEXTS["C06"] = {
     "text": "Proved on the model of setTimeoutList/getTimeoutList/setTimeoutRollback for all ledgers, heights, ids: an accepted plain request with 0<T (no overflow) is recorded for exactly H+T "
             "(C06_request_recorded_at_deadline), T<=0/overflow/rejected/batch/begin-failed requests are never recorded (C06_zero_never, C06_rejected_never), an accepted receipt requests removal "
-            "at the recorded height (C06_receipt_removes), the timeout step of block h moves every listed id to BEGIN_ROLLBACK and touches no unlisted id "
+            "at the recorded height (C06_receipt_removes), between two BitXHubs a request whose record is final (the destination hub's notice) leaves the list of the recorded deadline and joins none (C06_notice_leaves_list; the three request theorems carry the hypothesis that there is no such record, "
+            "discharged for local pairs and open records by finalInterRecord_none_of_local / _of_open), the timeout step of block h moves every listed id to BEGIN_ROLLBACK and touches no unlisted id "
             "(C06_fires_at_deadline, C06_not_listed_untouched). The end-to-end statement over histories is checked by model correspondence and the protocol monitor, one-to-one and (a quarter of the traffic) one-to-many: a group is listed as timed out only "
-            "in its deadline block and only if it has neither failed nor finished. Three defects repaired by fix: commits (097cb155, 1d4711ef and the timeout-list quirks).",
+            "in its deadline block and only if it has neither failed nor finished. Defects repaired by fix: commits (097cb155, 1d4711ef, the timeout-list quirks, ec8a63d5, 56c2160a, 37545315).",
     "note": TB,
     "technique": "Lean 4 theorems over the executable timeout-bookkeeping model + differential correspondence + protocol monitor",
 }
